@@ -1316,8 +1316,8 @@ func decidedOne(out *hx.Out, seed, c uint64, size int) {
 			case 3: // signature aggregated from a different subset than listed
 				other := spectypes.OperatorID((perm+nsig)%size + 1)
 				d.Signers[0] = other
-			case 4: // value does not match root
-				d.FullData = valueBytes(uint64(20 + r.Intn(5)))
+			case 4: // value does not match root: another value, or the value stripped (it is not covered by the signature)
+				d.FullData = hx.Pick(r, valueBytes(uint64(20+r.Intn(5))), nil, []byte{})
 			case 5: // wrong height
 				d.Message.Height = height + specqbft.Height(1+r.Intn(3))
 			case 6: // wrong identifier
